@@ -13,7 +13,7 @@
 (*         callee observes (10.4.3, 15.3.4.3)                                 *)
 (* Every expectation is computed by the operators of Bridge.tla.             *)
 EXTENDS Json, SequencesExt, Randomization
-CONSTANTS OpenDev, Tier
+CONSTANTS OpenDev, Tier, Src
 VARIABLES blk, cs
 
 S == INSTANCE Bridge WITH Dev <- {}
@@ -170,9 +170,13 @@ Expect(B(_), c) ==        \* B(op) selects the instance: see Emit
     CASE c.fam = "g2j" ->
             LET g == c.g  j == B("ToJS")[g] IN
             IF IsScalar(g)
-            THEN [js |-> j, ty |-> B("TypeOf")[j], str |-> B("ScriptString")[g], exp |-> B("Export")[g],
-                  toInt |-> B("ToIntegerG")[g], toFloat |-> B("ToFloatG")[g], toStr |-> B("ToStringG")[g], toBool |-> B("ToBooleanG")[g],
-                  json |-> B("GoJSON")[g]]
+            THEN LET ts == B("ToStringG")[g]
+                 IN  [js |-> j, ty |-> B("TypeOf")[j],
+                      \* Bridge!ScriptString and Bridge!ToStringG are the same expression except for the integer kinds:
+                      \* the shortest-digits search of 9.8.1 is evaluated once
+                      str |-> IF g.k \in S!IntKinds THEN B("ScriptString")[g] ELSE ts, exp |-> B("Export")[g],
+                      toInt |-> B("ToIntegerG")[g], toFloat |-> B("ToFloatG")[g], toStr |-> ts, toBool |-> B("ToBooleanG")[g],
+                      json |-> B("GoJSON")[g]]
             ELSE [js |-> j, ty |-> B("TypeOf")[j], exp |-> B("Export")[g], json |-> B("GoJSON")[g]]
       [] c.fam = "j2g" ->
             LET v == c.v
@@ -220,9 +224,15 @@ TabL(op) == CASE op = "ToJS" -> [g \in {cs.g} |-> L!ToJS(g)]
 Js(c) == IF c.fam = "j2g" THEN JsParts(c.v) ELSE <<>>
 
 (* ---- blocks: evaluation is spread over the TLC workers --------------------- *)
+(* Src = "enum": the cases enumerated above.  Src = "file": seeded random Go *)
+(* values produced by the harness (c15cases.ndjson, one abstract value per   *)
+(* line: random bit patterns of every integer and float width, decimal-like  *)
+(* doubles, random strings) - the specification still computes every         *)
+(* expectation.                                                              *)
 K == 64
 AllCases == G2J \cup J2G \cup Calls
-CaseSeq == SetToSeq(AllCases)
+FileCases == ndJsonDeserialize("c15cases.ndjson")
+CaseSeq == IF Src = "file" THEN FileCases ELSE SetToSeq(AllCases)
 None == [fam |-> "none"]
 Init == cs = None /\ blk \in 1..K
 Next == /\ cs = None
